@@ -140,3 +140,37 @@ Example C02_selective_example :
   walk current current_consts c02_c is_email (real_actions current_consts c02_c None) (MQ false false MNil []) (c02_flt "x" "y") =
   JObj [("ssn", JObj [("$in", JArr [JStr "R"; JStr "R"])]); ("city", JStr "Paris"); ("owner", JObj [("ssn", JStr "R")])].
 Proof. vm_compute. split; reflexivity. Qed.
+
+(* ---------- whole logs ---------- *)
+From Model Require Import Stream.
+From Proofs Require Import StreamProofs.
+Close Scope string_scope.
+
+(* two lines are twins when they are the same bytes, or both parse as entries that pass the gate and are related by [entry_sim] *)
+Definition twin_lines (tb : tables) (c : cfg) (l l' : list Ascii.ascii) : Prop :=
+  l = l' \/ exists e e', parse_line l = Some (JObj e) /\ parse_line l' = Some (JObj e') /\ gate e = true /\ entry_sim tb c e e'.
+
+(* a twin line yields the same output line, or nothing in both runs *)
+Theorem C02_line : forall tb cs c l l',
+  re c = None -> ~ In (""%string, Exempt) (all_entries tb) -> twin_lines tb c l l' ->
+  redact_line tb cs c None l = redact_line tb cs c None l'.
+Proof.
+  intros tb cs c l l' H1 H2 [-> | (e & e' & Hp & Hp' & Hg & Hs)]; [reflexivity|].
+  unfold redact_line. rewrite Hp, Hp'. cbn [redact_tree].
+  rewrite (C02_noninterference tb cs c (real_actions cs c None) e e' H1 H2 (fun _ _ _ => eq_refl) (fun _ _ => eq_refl) (fun _ _ => eq_refl) Hg Hs).
+  reflexivity.
+Qed.
+Print Assumptions C02_line.
+
+(* the hyperproperty for whole logs in placeholder mode: two input texts that the scanner cuts into the same number of lines, twins pairwise (the texts may
+   differ in length: literals are re-drawn freely within their class), give the same output file, byte for byte *)
+Theorem C02_log : forall tb cs c data data',
+  re c = None -> ~ In (""%string, Exempt) (all_entries tb) ->
+  Forall2 (twin_lines tb c) (fst (scan data REof)) (fst (scan data' REof)) ->
+  stream tb cs c None data = stream tb cs c None data'.
+Proof.
+  intros tb cs c data data' H1 H2 F. rewrite !stream_is_map.
+  induction F as [|l l' r r' Hl _ IH]; [reflexivity|]. cbn [map List.concat]. rewrite IH. f_equal.
+  unfold emit. now rewrite (C02_line tb cs c l l' H1 H2 Hl).
+Qed.
+Print Assumptions C02_log.
